@@ -43,7 +43,7 @@ def cases(tier):
 
 def ops():
     return [('req', j) for j in range(3)] + [('failreq', j) for j in range(3)] + [('forcereq', j) for j in range(3)] + \
-        [('new', 0), ('restart', 0)]
+        [('quietforce', 1), ('new', 0), ('restart', 0)]
 
 
 def expected_records(ref, k, name, nth):
@@ -54,7 +54,7 @@ def expected_records(ref, k, name, nth):
     ri = {'task': {'name': info['slug'], 'class': spec['name'], 'module': 'ref.family_gen'},
           'parameters': {p['name']: KS.vrepr(p['value']) for p in info['params']},
           'config': {'name': 'cfg0', 'namespace': None, 'context': None},
-          'input_tasks': in_keys, 'log': [{'nth_run_of_task': nth}]}
+          'input_tasks': in_keys, 'log': [{'nth_run_of_task': nth}, {'shape': (2, nth), 'tags': {'a', 'b'}}]}
     log = [f'{name} - run started with params: {ptext}', f'step {nth} of {name}', f'{name} - run ended']
     return ri, log
 
@@ -73,6 +73,7 @@ def make_harness(case, tier):
         produced = {}          # location -> nth run of the task that produced the stored result
         counts = {}            # task name -> runs so far (the run methods number their runs the same way)
         failed_last = set()    # locations whose latest run attempt failed
+        quiet_locs = set()     # locations whose latest run logged nothing (their log must be empty)
         trace = []
         for step in range(h):
             op, arg = OPS[first] if step == 0 else OPS[ctx.choice(f'op{step}', len(OPS))]
@@ -91,9 +92,15 @@ def make_harness(case, tier):
             else:
                 name = NAMES[arg]
                 fail = None
-                if op == 'forcereq':
+                quiet = op == 'quietforce'
+                if op in ('forcereq', 'quietforce'):
                     world.chain(cur).force(name)
                     ref.force(cur, [name])
+                if quiet:
+                    # the forced run logs nothing at all (the task logger is raised to WARNING for its duration)
+                    import logging
+                    for nm in NAMES:
+                        world.task(cur, nm).logger.setLevel(logging.WARNING)
                 if op == 'failreq':
                     # the task that fails is the requested one's first input (or itself for the source)
                     fail = {'report:summary': 'report:summary', 'report': 'report:summary', 'final': 'report'}[name]
@@ -107,7 +114,17 @@ def make_harness(case, tier):
                 mark = world.mark()
                 got = world.request(cur, name)
                 family.FAIL.pop(fail, None)
+                if quiet:
+                    import logging
+                    for nm in NAMES:
+                        world.task(cur, nm).logger.setLevel(logging.DEBUG)
                 exp_runs, outcome, _ = ref.request(cur, name, fail=fail)
+                if quiet:
+                    for r in exp_runs:
+                        quiet_locs.add(ref.loc(cur, r))
+                else:
+                    for r in exp_runs:
+                        quiet_locs.discard(ref.loc(cur, r))
                 for r in exp_runs:
                     counts[r] = counts.get(r, 0) + 1
                     if fail is not None and ref.ev(cur)[r]['slug'] == fail and outcome == 'exc' and r == exp_runs[-1]:
@@ -131,6 +148,8 @@ def make_harness(case, tier):
                     if loc not in produced or not ref.has_data(k, n) or loc in failed_last:
                         continue
                     ri_exp, log_exp = expected_records(ref, k, n, produced[loc])
+                    if loc in quiet_locs:
+                        log_exp = []
                     ri = t.run_info
                     got_ri = None if ri is None else {kk: ri.get(kk) for kk in ri_exp}
                     if got_ri and isinstance(got_ri.get('config'), dict) and got_ri['config'].get('name') == f'cfg0/{n}':
